@@ -188,6 +188,15 @@ def st_try_branch(ex, callee, args, st):
         if st_err is not None:
             out.append(("return", Adt("ControlFlow", "Break", [Adt("Result", "Err", [v.child("Err", 0)])]), None, st_err))
         return out
+    if isinstance(v, Sym) and v.tdef is not None and v.tdef.name == "Option":
+        out = []
+        st_none = ex._assume_switch(st, v.tag(), "0", [])
+        if st_none is not None:
+            out.append(("return", Adt("ControlFlow", "Break", [Adt("Option", "None", [])]), None, st_none))
+        st_some = ex._assume_switch(st, v.tag(), "1", [])
+        if st_some is not None:
+            out.append(("return", Adt("ControlFlow", "Continue", [v.child("Some", 0)]), None, st_some))
+        return out
     raise Unsupported(f"`?` on {v!r}")
 
 
@@ -195,7 +204,579 @@ def st_from_residual(ex, callee, args, st):
     return _ret(ex.deref(args[0], st), st)
 
 
+class SeqIter(symex.Val):
+    """`slice::Iter` (optionally reversed) over a symbolic sequence whose length is fixed on this path."""
+
+    def __init__(self, seq, lo, hi, rev=False, enum=False):
+        self.seq, self.lo, self.hi, self.rev, self.enum = seq, lo, hi, rev, enum
+
+    def __repr__(self):
+        return f"iter<{self.seq!r}[{self.lo}..{self.hi}]{' rev' if self.rev else ''}{' enum' if self.enum else ''}>"
+
+
+def seq_elem_type(ty_text):
+    t = re.sub(r"^&\s*('\w+\s+)?(mut\s+)?", "", ty_text.strip())
+    m = re.match(r"^\[(.*?)(?:; \d+)?\]$", t) or re.match(r"^(?:std::vec::|alloc::vec::)?Vec<(.*)>$", t)
+    if not m:
+        raise Unsupported(f"element type of {ty_text}")
+    return m.group(1)
+
+
+def seq_elem(ex, seq, k):
+    if isinstance(seq, Adt):          # a constructed vector
+        return seq.fields[k]
+    key = ("elem", str(k))
+    if key not in seq._children:
+        seq._children[key] = ex.sym_value(seq_elem_type(seq.ty_text), f"{seq.name}.e{k}", seq.tdef.modpath if seq.tdef else None)
+    return seq._children[key]
+
+
+def iter_elem(ex, it, k):
+    """k-th element of the underlying sequence as the iterator yields it ((index, elem) when enumerated)"""
+    el = seq_elem(ex, it.seq, k)
+    if it.enum:
+        return symex.Tup([S("int", ex.enc.int_const(k - 0), 64, False), el])
+    return el
+
+
+def seq_elem_at(ex, seq, idx_term):
+    """Element of a symbolic slice at a symbolic index (one symbolic element per distinct index term)."""
+    key = ("elem", idx_term)
+    if key not in seq._children:
+        ex.sym_counter += 1
+        el = ex.sym_value(seq_elem_type(seq.ty_text), f"{seq.name}.at{ex.sym_counter}", seq.tdef.modpath if seq.tdef else None)
+        seq._children[key] = el
+        hook = getattr(ex, "elem_axiom", None)
+        if hook:
+            hook(seq, idx_term, el)
+    return seq._children[key]
+
+
+def seq_lengths(ex, seq, st):
+    """-> [(n, state)]: the length of a symbolic sequence is decided once per path, 0..=ex.seq_bound"""
+    key = "len:" + seq.name
+    if key in st.facts:
+        return [(st.facts[key], st)]
+    out = []
+    for n in range(getattr(ex, "seq_bound", 3) + 1):
+        st2 = st.fork()
+        st2.facts[key] = n
+        out.append((n, st2))
+    return out
+
+
+def _fallback(ex, callee, args, st, why):
+    """Not a value of the sequence model: behave as before the model existed (opaque call, or unsupported)."""
+    if ex.opaque_calls:
+        r = ex.opaque_calls(ex, callee, args, st)
+        if r is not None:
+            return r
+    raise Unsupported(why)
+
+
+def st_vec_deref(ex, callee, args, st):
+    v = ex.deref(args[0], st)
+    if isinstance(v, (Sym, Adt)) and getattr(ex, "model_sequences", False):
+        return _ret(v, st)
+    return _fallback(ex, callee, args, st, f"deref of {v!r}")
+
+
+class Outcome_:
+    def __init__(self, kind, value, info, state):
+        self.kind, self.value, self.info, self.state = kind, value, info, state
+
+
+class MapIter(symex.Val):
+    def __init__(self, inner, env, ctext):
+        self.inner, self.env, self.ctext = inner, env, ctext
+
+    def __repr__(self):
+        return f"map<{self.inner!r}>"
+
+
+def _closure_fn(ex, ctext):
+    cands = [f for f in ex.p.fns.values() if f.params and ctext in f.params[0][1] and "{closure#" in f.name]
+    if len(cands) != 1:
+        raise Unsupported(f"cannot resolve closure {ctext}")
+    return cands[0]
+
+
+def st_iter_map(ex, callee, args, st):
+    it = ex.deref(args[0], st)
+    cm = re.search(r"(\{closure@[^}]+\})", callee)
+    if not isinstance(it, SeqIter) or not cm:
+        return _fallback(ex, callee, args, st, f"map over {it!r}")
+    return _ret(MapIter(it, args[1], cm.group(1)), st)
+
+
+def st_collect_result_vec(ex, callee, args, st):
+    """`iter.map(f).collect::<Result<Vec<_>, _>>()`: f on each element in order, the first Err ends the collection."""
+    mi = ex.deref(args[0], st)
+    if not isinstance(mi, MapIter) or mi.inner.rev:
+        return _fallback(ex, callee, args, st, f"collect of {mi!r}")
+    f = _closure_fn(ex, mi.ctext)
+    res = []
+    work = [(mi.inner.lo, [], st)]
+    while work:
+        k, acc, s1 = work.pop()
+        if k >= mi.inner.hi:
+            res.append(("return", Adt("Result", "Ok", [Adt("Vec", "lit", acc)]), None, s1))
+            continue
+        if mi.inner.enum and getattr(ex, "opaque_enum_closures", False) and ex.opaque_calls:
+            # the per-element closure is summarised: an event (index, element) with an arbitrary Result
+            saved = ex.dest_type
+            ex.dest_type = f.ret if getattr(f, "ret", None) else "std::result::Result<TokenStream, EmitError>"
+            try:
+                runs = [Outcome_(kind, val, info, st_) for kind, val, info, st_ in
+                        ex.opaque_calls(ex, f.name, [mi.env, iter_elem(ex, mi.inner, k)], s1)]
+            finally:
+                ex.dest_type = saved
+        else:
+            runs = ex.run(f, [mi.env, iter_elem(ex, mi.inner, k)], {}, 1, s1)
+        for o in runs:
+            if o.kind != "return":
+                res.append((o.kind, o.value, o.info, o.state))
+                continue
+            v = ex.deref(o.value, o.state)
+            if isinstance(v, Sym) and v.tdef is not None and v.tdef.name == "Result":
+                s_ok = ex._assume_switch(o.state, v.tag(), "0", [])
+                if s_ok is not None:
+                    work.append((k + 1, acc + [v.child("Ok", 0)], s_ok))
+                s_err = ex._assume_switch(o.state, v.tag(), "1", [])
+                if s_err is not None:
+                    res.append(("return", Adt("Result", "Err", [v.child("Err", 0)]), None, s_err))
+            elif isinstance(v, Adt) and v.variant == "Ok":
+                x = v.fields[0]
+                work.append((k + 1, acc + [x[1] if isinstance(x, tuple) else x], o.state))
+            elif isinstance(v, Adt) and v.variant == "Err":
+                res.append(("return", v, None, o.state))
+            else:
+                raise Unsupported(f"collect: closure returned {v!r}")
+    return res
+
+
+def st_collect_vec(ex, callee, args, st):
+    """`iter.map(f).collect::<Vec<_>>()`"""
+    mi = ex.deref(args[0], st)
+    if not isinstance(mi, MapIter) or mi.inner.rev:
+        return _fallback(ex, callee, args, st, f"collect of {mi!r}")
+    f = _closure_fn(ex, mi.ctext)
+    res = []
+    work = [(mi.inner.lo, [], st)]
+    while work:
+        k, acc, s1 = work.pop()
+        if k >= mi.inner.hi:
+            res.append(("return", Adt("Vec", "lit", acc), None, s1))
+            continue
+        for o in ex.run(f, [mi.env, iter_elem(ex, mi.inner, k)], {}, 1, s1):
+            if o.kind != "return":
+                res.append((o.kind, o.value, o.info, o.state))
+            else:
+                work.append((k + 1, acc + [o.value], o.state))
+    return res
+
+
+def st_iter_enumerate(ex, callee, args, st):
+    it = ex.deref(args[0], st)
+    if not isinstance(it, SeqIter) or it.rev:
+        return _fallback(ex, callee, args, st, f"enumerate of {it!r}")
+    return _ret(SeqIter(it.seq, it.lo, it.hi, False, True), st)
+
+
+def _lit_index(ex, v):
+    v = v if isinstance(v, Scalar) else None
+    return symex._int_lit(v.term) if v is not None else None
+
+
+def st_vec_new(ex, callee, args, st):
+    if not getattr(ex, "model_vecs", False):
+        return _fallback(ex, callee, args, st, "Vec::new")
+    return _ret(Adt("Vec", "lit", []), st)
+
+
+def st_vec_push(ex, callee, args, st):
+    cur = ex.deref(args[0], st)
+    if not (isinstance(cur, Adt) and cur.ty == "Vec" and cur.variant == "lit" and isinstance(args[0], Ref)):
+        return _fallback(ex, callee, args, st, f"push into {cur!r}")
+    st2 = st.fork()
+    ex._store(args[0].frame, args[0].place, Adt("Vec", "lit", list(cur.fields) + [args[1]]), st2)
+    return _ret(Unit(), st2)
+
+
+def st_vec_index(ex, callee, args, st):
+    v = ex.deref(args[0], st)
+    k = _lit_index(ex, ex.deref(args[1], st))
+    if isinstance(v, Adt) and v.ty == "Vec" and v.variant == "lit" and k is not None:
+        if 0 <= k < len(v.fields):
+            return _ret(v.fields[k], st)
+        return [("panic", None, "index out of bounds on a constructed vector", st)]
+    if isinstance(v, Sym) and k is not None and getattr(ex, "model_sequences", False):
+        return [("return", seq_elem(ex, v, k), None, st2) if 0 <= k < n else ("panic", None, "index out of bounds", st2)
+                for n, st2 in seq_lengths(ex, v, st)]
+    return _fallback(ex, callee, args, st, f"index into {v!r}")
+
+
+def st_slice_get(ex, callee, args, st):
+    v = ex.deref(args[0], st)
+    k = _lit_index(ex, ex.deref(args[1], st))
+    if k is None:
+        return _fallback(ex, callee, args, st, f"get on {v!r}")
+    if isinstance(v, Adt) and v.ty == "Vec" and v.variant == "lit":
+        return _ret(Adt("Option", "Some", [v.fields[k]]) if 0 <= k < len(v.fields) else Adt("Option", "None", []), st)
+    if isinstance(v, Sym) and getattr(ex, "model_sequences", False):
+        return [("return", Adt("Option", "Some", [seq_elem(ex, v, k)]) if 0 <= k < n else Adt("Option", "None", []), None, st2)
+                for n, st2 in seq_lengths(ex, v, st)]
+    return _fallback(ex, callee, args, st, f"get on {v!r}")
+
+
+# ---- maps keyed by strings: entries in insertion order; key equality is equality of symbolic string ids ---------------------
+def str_id(ex, v, st):
+    v = ex.deref(v, st)
+    if not hasattr(ex, "str_ids"):
+        ex.str_ids = {}
+    key = v.name if isinstance(v, Sym) else repr(v)
+    if key not in ex.str_ids:
+        nm = "sid!" + re.sub(r"[^A-Za-z0-9_.!]", "_", key)
+        ex.enc.decls.append(f"(declare-const {nm} Int)")
+        ex.str_ids[key] = nm
+    return ex.str_ids[key]
+
+
+def st_map_new(ex, callee, args, st):
+    if not getattr(ex, "model_maps", False):
+        return _fallback(ex, callee, args, st, "HashMap::new")
+    return _ret(Adt("Map", "lit", []), st)
+
+
+def st_map_insert(ex, callee, args, st):
+    cur = ex.deref(args[0], st)
+    if not (isinstance(cur, Adt) and cur.ty == "Map" and isinstance(args[0], Ref)):
+        return _fallback(ex, callee, args, st, f"insert into {cur!r}")
+    st2 = st.fork()
+    ex._store(args[0].frame, args[0].place, Adt("Map", "lit", list(cur.fields) + [symex.Tup([args[1], args[2]])]), st2)
+    return _ret(Opaque("displaced"), st2)
+
+
+def st_map_get(ex, callee, args, st):
+    cur = ex.deref(args[0], st)
+    if not (isinstance(cur, Adt) and cur.ty == "Map"):
+        return _fallback(ex, callee, args, st, f"get on {cur!r}")
+    kid = str_id(ex, args[1], st)
+    res = []
+    s1 = st
+    for ent in reversed(cur.fields):      # the latest insertion of an equal key wins
+        eq = f"(= {str_id(ex, ent.items[0], s1)} {kid})"
+        s_hit = s1.fork()
+        if symex.simplify_bool(symex.neg(eq)) not in s_hit.pc:
+            if eq not in s_hit.pc:
+                s_hit.pc.append(eq)
+            res.append(("return", Adt("Option", "Some", [ent.items[1]]), None, s_hit))
+        if eq in s1.pc:
+            s1 = None
+            break
+        s1 = s1.fork()
+        ne = symex.neg(eq)
+        if ne not in s1.pc:
+            s1.pc.append(ne)
+    if s1 is not None:
+        res.append(("return", Adt("Option", "None", []), None, s1))
+    return res
+
+
+def st_set_new(ex, callee, args, st):
+    if not getattr(ex, "model_maps", False):
+        return _fallback(ex, callee, args, st, "HashSet::new")
+    return _ret(Adt("Set", "lit", []), st)
+
+
+def st_set_insert(ex, callee, args, st):
+    cur = ex.deref(args[0], st)
+    if not (isinstance(cur, Adt) and cur.ty == "Set" and isinstance(args[0], Ref)):
+        return _fallback(ex, callee, args, st, f"insert into {cur!r}")
+    st2 = st.fork()
+    ex._store(args[0].frame, args[0].place, Adt("Set", "lit", list(cur.fields) + [args[1]]), st2)
+    return _ret(Opaque("was-new"), st2)
+
+
+def st_set_contains(ex, callee, args, st):
+    cur = ex.deref(args[0], st)
+    if not (isinstance(cur, Adt) and cur.ty == "Set"):
+        return _fallback(ex, callee, args, st, f"contains on {cur!r}")
+    kid = str_id(ex, args[1], st)
+    eqs = [f"(= {str_id(ex, m, st)} {kid})" for m in cur.fields]
+    return _ret(S("bool", symex.disj(eqs) if eqs else "false"), st)
+
+
+def st_set_is_empty(ex, callee, args, st):
+    cur = ex.deref(args[0], st)
+    if not (isinstance(cur, Adt) and cur.ty == "Set"):
+        return _fallback(ex, callee, args, st, f"is_empty on {cur!r}")
+    return _ret(S("bool", "true" if not cur.fields else "false"), st)
+
+
+def st_opt_is_some_and(ex, callee, args, st):
+    """Option::is_some_and(f) / is_none_or(f)"""
+    cm = re.search(r"(\{closure@[^}]+\})", callee)
+    none_val = "true" if "is_none_or" in callee else "false"
+    res = []
+    for some, payload, st2 in _opt_split(ex, args[0], st):
+        if not some:
+            res.append(("return", S("bool", none_val), None, st2))
+        elif cm:
+            for o in ex.run(_closure_fn(ex, cm.group(1)), [args[1], payload], {}, 1, st2):
+                res.append((o.kind, o.value, o.info, o.state))
+        else:
+            raise Unsupported(f"is_some_and with {callee}")
+    return res
+
+
+def st_opt_filter(ex, callee, args, st):
+    cm = re.search(r"(\{closure@[^}]+\})", callee)
+    res = []
+    for some, payload, st2 in _opt_split(ex, args[0], st):
+        if not some:
+            res.append(("return", Adt("Option", "None", []), None, st2))
+            continue
+        if not cm:
+            raise Unsupported(f"filter with {callee}")
+        for o in ex.run(_closure_fn(ex, cm.group(1)), [args[1], payload], {}, 1, st2):
+            if o.kind != "return":
+                res.append((o.kind, o.value, o.info, o.state))
+                continue
+            v = ex.deref(o.value, o.state)
+            if not (isinstance(v, Scalar) and v.sort == "bool"):
+                raise Unsupported(f"filter: closure returned {v!r}")
+            t = symex.simplify_bool(v.term)
+            if t != "false":
+                s_t = o.state.fork()
+                if t != "true" and t not in s_t.pc:
+                    s_t.pc.append(t)
+                res.append(("return", Adt("Option", "Some", [payload]), None, s_t))
+            if t != "true":
+                s_f = o.state.fork()
+                nt = symex.simplify_bool(symex.neg(t))
+                if nt != "true" and nt not in s_f.pc:
+                    s_f.pc.append(nt)
+                res.append(("return", Adt("Option", "None", []), None, s_f))
+    return res
+
+
+def st_opt_and_then(ex, callee, args, st):
+    cm = re.search(r"(\{closure@[^}]+\})", callee)
+    res = []
+    for some, payload, st2 in _opt_split(ex, args[0], st):
+        if not some:
+            res.append(("return", Adt("Option", "None", []), None, st2))
+        elif cm:
+            for o in ex.run(_closure_fn(ex, cm.group(1)), [args[1], payload], {}, 1, st2):
+                res.append((o.kind, o.value, o.info, o.state))
+        else:
+            fm = re.search(r"\{([\w:]+)\}>$", callee)      # a named fn item: `and_then::<T, fn(..) -> .. {path::name}>`
+            target = ex.p.lookup(fm.group(1)) if fm else None
+            if target is None and fm:
+                cands = [f for n, f in ex.p.fns.items() if n.endswith("::" + fm.group(1)) or n == fm.group(1)]
+                target = cands[0] if len(cands) == 1 else None
+            if target is None:
+                raise Unsupported(f"and_then with {callee}")
+            for o in ex.run(target, [payload], {}, 1, st2):
+                res.append((o.kind, o.value, o.info, o.state))
+    return res
+
+
+def st_quote_into_iter(ex, callee, args, st):
+    v = ex.deref(args[0], st)
+    if isinstance(v, Adt) and v.ty == "Vec" and v.variant == "lit":
+        return _ret(symex.Tup([SeqIter(v, 0, len(v.fields)), Opaque("HasIterator")]), st)
+    return _fallback(ex, callee, args, st, f"quote repetition over {v!r}")
+
+
+def st_unit(ex, callee, args, st):
+    return _ret(Opaque("marker"), st)
+
+
+def st_rep_to_tokens(ex, callee, args, st):
+    src = ex.deref(args[0], st)
+    if isinstance(src, Adt) and src.fields:
+        f = src.fields[0]
+        src = ex.deref(f[1] if isinstance(f, tuple) else f, st)
+    toks = list(src.toks) if isinstance(src, Tokens) else [f"<tokens of {src!r}>"]
+    return _ret(Unit(), _push(ex, args[1], toks, st))
+
+
+def st_slice_iter(ex, callee, args, st):
+    seq = ex.deref(args[0], st)
+    if isinstance(seq, Adt) and seq.ty == "Vec" and seq.variant == "lit":
+        return _ret(SeqIter(seq, 0, len(seq.fields)), st)
+    if not isinstance(seq, Sym) or not getattr(ex, "model_sequences", False):
+        return _fallback(ex, callee, args, st, f"iteration over {seq!r}")
+    return [("return", SeqIter(seq, 0, n), None, st2) for n, st2 in seq_lengths(ex, seq, st)]
+
+
+def st_iter_rev(ex, callee, args, st):
+    it = ex.deref(args[0], st)
+    if not isinstance(it, SeqIter):
+        return _fallback(ex, callee, args, st, f"rev of {it!r}")
+    return _ret(SeqIter(it.seq, it.lo, it.hi, not it.rev), st)
+
+
+def st_into_iter(ex, callee, args, st):
+    v = ex.deref(args[0], st)
+    if isinstance(v, SeqIter):
+        return _ret(v, st)
+    if isinstance(v, Sym) and re.search(r"^<&", callee) and getattr(ex, "model_sequences", False):
+        return st_slice_iter(ex, callee, args, st)
+    return _fallback(ex, callee, args, st, f"into_iter of {v!r}")
+
+
+def st_iter_next(ex, callee, args, st):
+    ref = args[0]
+    it = ex.deref(ref, st)
+    if not isinstance(it, SeqIter) or not isinstance(ref, Ref):
+        return _fallback(ex, callee, args, st, f"next on {it!r}")
+    if it.lo >= it.hi:
+        return _ret(Adt("Option", "None", []), st)
+    st2 = st.fork()
+    if it.rev:
+        k, new = it.hi - 1, SeqIter(it.seq, it.lo, it.hi - 1, True)
+    else:
+        k, new = it.lo, SeqIter(it.seq, it.lo + 1, it.hi, False)
+    ex._store(ref.frame, ref.place, new, st2)
+    return _ret(Adt("Option", "Some", [seq_elem(ex, it.seq, k)]), st2)
+
+
+def st_iter_any(ex, callee, args, st):
+    """`iter.any(f)`: f on each element in iteration order, short-circuiting on the first true."""
+    it = ex.deref(args[0], st)
+    cm = re.search(r"(\{closure@[^}]+\})", callee)
+    if not isinstance(it, SeqIter) or not cm:
+        return _fallback(ex, callee, args, st, f"any over {it!r}")
+    f = _closure_fn(ex, cm.group(1))
+    order = list(range(it.lo, it.hi))
+    if it.rev:
+        order.reverse()
+    res = []
+    work = [(0, st)]
+    while work:
+        j, s1 = work.pop()
+        if j >= len(order):
+            res.append(("return", S("bool", "false"), None, s1))
+            continue
+        for o in ex.run(f, [args[1], seq_elem(ex, it.seq, order[j])], {}, 1, s1):
+            if o.kind != "return":
+                res.append((o.kind, o.value, o.info, o.state))
+                continue
+            v = ex.deref(o.value, o.state)
+            if not (isinstance(v, Scalar) and v.sort == "bool"):
+                raise Unsupported(f"any: closure returned {v!r}")
+            t = symex.simplify_bool(v.term)
+            if t != "false":
+                s_t = o.state.fork()
+                if t != "true" and t not in s_t.pc:
+                    s_t.pc.append(t)
+                res.append(("return", S("bool", "true"), None, s_t))
+            if t != "true":
+                s_f = o.state.fork()
+                nt = symex.simplify_bool(symex.neg(t))
+                if nt != "true" and nt not in s_f.pc:
+                    s_f.pc.append(nt)
+                work.append((j + 1, s_f))
+    return res
+
+
+def st_slice_last(ex, callee, args, st):
+    seq = ex.deref(args[0], st)
+    if not isinstance(seq, Sym) or not getattr(ex, "model_sequences", False):
+        return _fallback(ex, callee, args, st, f"last of {seq!r}")
+    return [("return", Adt("Option", "Some", [seq_elem(ex, seq, n - 1)]) if n > 0 else Adt("Option", "None", []), None, st2)
+            for n, st2 in seq_lengths(ex, seq, st)]
+
+
+def st_opt_unwrap_or_else(ex, callee, args, st):
+    cm = re.search(r"(\{closure@[^}]+\})", callee)
+    res = []
+    for some, payload, st2 in _opt_split(ex, args[0], st):
+        if some:
+            res.append(("return", payload, None, st2))
+        elif cm:
+            for o in ex.run(_closure_fn(ex, cm.group(1)), [args[1]], {}, 1, st2):
+                res.append((o.kind, o.value, o.info, o.state))
+        else:
+            raise Unsupported(f"unwrap_or_else with {callee}")
+    return res
+
+
+def st_seq_is_empty(ex, callee, args, st):
+    seq = ex.deref(args[0], st)
+    if isinstance(seq, Adt) and seq.ty == "Vec" and seq.variant == "lit":
+        return _ret(S("bool", "true" if not seq.fields else "false"), st)
+    if not isinstance(seq, Sym) or not getattr(ex, "model_sequences", False):
+        return _fallback(ex, callee, args, st, f"is_empty of {seq!r}")
+    return [("return", S("bool", "true" if n == 0 else "false"), None, st2) for n, st2 in seq_lengths(ex, seq, st)]
+
+
+def st_seq_len(ex, callee, args, st):
+    seq = ex.deref(args[0], st)
+    if isinstance(seq, Adt) and seq.ty == "Vec" and seq.variant == "lit":
+        return _ret(S("int", ex.enc.int_const(len(seq.fields))), st)
+    if not isinstance(seq, Sym) or not getattr(ex, "model_sequences", False):
+        return _fallback(ex, callee, args, st, f"len of {seq!r}")
+    return [("return", S("int", ex.enc.int_const(n)), None, st2) for n, st2 in seq_lengths(ex, seq, st)]
+
+
+def st_box_new_uninit(ex, callee, args, st):
+    return _ret(Adt("BoxUninit", None, [Opaque("uninit")]), st)
+
+
+def st_box_into_vec(ex, callee, args, st):
+    b = ex.deref(args[0], st)
+    if isinstance(b, Adt) and b.ty == "BoxUninit":
+        arr = ex.deref(b.fields[0], st)
+        if isinstance(arr, symex.Tup):
+            return _ret(Adt("Vec", "lit", list(arr.items)), st)
+    raise Unsupported(f"into_vec of {b!r}")
+
+
 STATE_INTRINSICS = {
+    r"^<(std::vec::)?Vec<.*> as (std::ops::)?Deref>::deref$": st_vec_deref,
+    r"^core::slice::<impl \[.*\]>::iter$": st_slice_iter,
+    r"^<(std::slice::)?Iter<.*> as (std::iter::)?Iterator>::rev$": st_iter_rev,
+    r"^<.* as (std::iter::)?IntoIterator>::into_iter$": st_into_iter,
+    r"^<(Rev<)?(std::slice::)?Iter<.*>>? as (std::iter::)?Iterator>::next$": st_iter_next,
+    r"^<(std::slice::)?Iter<.*> as (std::iter::)?Iterator>::map::<.*>$": st_iter_map,
+    r"^<Map<.*> as (std::iter::)?Iterator>::collect::<(std::result::)?Result<(std::vec::)?Vec<.*>, .*>>$": st_collect_result_vec,
+    r"RepAsIteratorExt<.*>>::quote_into_iter$": st_quote_into_iter,
+    r"quote::__private::HasIterator<.*> as .*>::(bitor|check)$": st_unit,
+    r"^<quote::__private::RepInterp<.*> as (quote::)?ToTokens>::to_tokens$": st_rep_to_tokens,
+    r"^<(std::vec::)?Vec<.*> as (std::ops::)?DerefMut>::deref_mut$": st_vec_deref,
+    r"^<(Rev<)?(std::slice::)?Iter<.*>>? as (std::iter::)?Iterator>::any::<.*>$": st_iter_any,
+    r"^core::slice::<impl \[.*\]>::(last|last_mut)$": st_slice_last,
+    r"Option::<.*>::unwrap_or_else::<.*>$": st_opt_unwrap_or_else,
+    r"Option::<.*>::(copied|cloned)$": st_clone,
+    r"^(std::vec::)?Vec::<.*>::is_empty$|^core::slice::<impl \[.*\]>::is_empty$": st_seq_is_empty,
+    r"^(std::vec::)?Vec::<.*>::len$|^core::slice::<impl \[.*\]>::len$": st_seq_len,
+    r"^<Map<.*> as (std::iter::)?Iterator>::collect::<(std::result::)?Result<_, .*>>$": st_collect_result_vec,
+    r"^<Map<.*> as (std::iter::)?Iterator>::collect::<(std::vec::)?Vec<.*>>$": st_collect_vec,
+    r"^<(std::slice::)?Iter<.*> as (std::iter::)?Iterator>::enumerate$": st_iter_enumerate,
+    r"^<(std::iter::)?Enumerate<.*> as (std::iter::)?Iterator>::map::<.*>$": st_iter_map,
+    r"^(std::vec::)?Vec::<.*>::new$": st_vec_new,
+    r"^(std::vec::)?Vec::<.*>::push$": st_vec_push,
+    r"^<(std::vec::)?Vec<.*> as (std::ops::)?Index<usize>>::index$": st_vec_index,
+    r"^core::slice::<impl \[.*\]>::get::<usize>$": st_slice_get,
+    r"HashSet::<(std::string::)?String>::new$": st_set_new,
+    r"HashSet::<(std::string::)?String>::insert$": st_set_insert,
+    r"HashSet::<(std::string::)?String>::contains::<.*>$": st_set_contains,
+    r"HashSet::<(std::string::)?String>::is_empty$": st_set_is_empty,
+    r"HashMap::<&str, .*>::new$": st_map_new,
+    r"HashMap::<&str, .*>::insert$": st_map_insert,
+    r"HashMap::<&str, .*>::get::<.*>$": st_map_get,
+    r"Option::<.*>::and_then::<.*>$": st_opt_and_then,
+    r"Option::<.*>::filter::<.*>$": st_opt_filter,
+    r"Option::<.*>::(is_some_and|is_none_or)::<.*>$": st_opt_is_some_and,
+    r"Option::<(std::string::)?String>::as_deref$": st_clone,
+    r"^(std::string::)?String::as_str$": st_clone,
+    r"^<(std::string::)?String as (std::ops::)?Deref>::deref$": st_clone,
+    r"Box::<\[.*; \d+\]>::new_uninit$": st_box_new_uninit,
+    r"box_assume_init_into_vec_unsafe::<.*>$": st_box_into_vec,
     r"(^|::)Box::<.*>::new$": st_clone,
     r"Option::<.*>::as_ref$": st_clone,
     r"Option::<.*>::map::<.*>$": st_opt_map,
